@@ -36,6 +36,7 @@ def init_world(auto=True):
         T.build_cog(world.CENSUS)
         if auto:
             T.build_auto(os.path.join(VERIF_ROOT, "auto_pool.json"))
+            T.build_geometry_variants(world.CENSUS)
     discover.init()
 
 
